@@ -1,13 +1,18 @@
 #!/bin/bash
-# usage: tools/try_refactor.sh <patch.diff>   -> applies to /repo, runs every check (quick), reverts; prints any alarm
-P=$1
-cd /repo || exit 2
-git diff --quiet || { echo "/repo dirty"; exit 2; }
-git apply --check "$P" 2>/tmp/apply.err || { echo "DOES NOT APPLY: $(head -2 /tmp/apply.err)"; exit 3; }
-git apply "$P"
+# usage: tools/try_refactor.sh <patch.diff>   -> applies to a scratch copy of /repo's sources, runs every check (quick) in parallel
+# on that copy, prints any alarm, removes the copy.  /repo itself is never touched.
+P=$(readlink -f "$1")
+S=$(mktemp -d /tmp/qv-rftree-XXXXXX)
+trap 'rm -rf "$S"' EXIT
+cp -r /repo/src /repo/include /repo/CMakeLists.txt "$S"/
+if ! (cd / && git apply --unsafe-paths --directory="$S" "$P" 2>/tmp/apply.err); then echo "DOES NOT APPLY: $(head -2 /tmp/apply.err)"; exit 3; fi
 cd /verif
 for p in $(python3 run.py list); do
-  QV_EVIDENCE_DIR=/tmp/qv-evidence-scratch python3 run.py check $p > /tmp/rf_$p.out 2>&1; rc=$?
-  if [ $rc -ne 0 ]; then echo "  ALARM $p rc=$rc"; grep -E "^DIAG|ANALYSIS-BROKEN|Traceback|Error" /tmp/rf_$p.out | cut -c1-260 | head -6; fi
+  ( QV_EVIDENCE_DIR=/tmp/qv-evidence-scratch/rf-$p python3 run.py check $p --root "$S" > /tmp/rf_$p.out 2>&1; echo $? > /tmp/rf_$p.rc ) &
 done
-git -C /repo checkout -- .
+wait
+for p in $(python3 run.py list); do
+  rc=$(cat /tmp/rf_$p.rc)
+  if [ "$rc" != "0" ]; then echo "  ALARM $p rc=$rc"; grep -E "^DIAG|ANALYSIS-BROKEN|Traceback|Error" /tmp/rf_$p.out | cut -c1-260 | head -6; fi
+done
+exit 0
